@@ -29,7 +29,8 @@ import (
 
 var prop = flag.String("prop", "C06", "C06|C07")
 
-// one letter per iteration: p pass, f Fail, n FailNow, s panic(string), e panic(error), c a cleanup panics
+// one letter per iteration: p pass, f Fail, n FailNow, s panic(string), e panic(error), c a cleanup panics,
+// g the body's helper goroutine panics under the exported CheckResults(t, done) and the body waits for done
 type cfg struct{ scripts []string }
 
 type world struct {
@@ -80,6 +81,13 @@ func scenario(c cfg) vrt.Scenario {
 				panic("body panics")
 			case 'e':
 				panic(errors.New("body panics"))
+			case 'g':
+				done := make(chan struct{})
+				vrt.GoNamed("helper", func() {
+					defer f1testing.CheckResults(t, done)
+					panic("helper goroutine panics")
+				})
+				vrt.Recv(done)
 			}
 		}}
 		as := workers.NewActiveScenario(sc, m, x.stats, hlib.DiscardLogger(), hlib.DiscardLogrus())
@@ -171,11 +179,15 @@ func scenariosFor(tier string) []vrt.Scenario {
 	add(b, "fp", "ep")
 	add(b, "cp", "pn")
 	add(b, "pp", "pp")
+	add(b, "gp", "p")
+	add(b, "gp", "gp")
 	out = append(out, scenario(cfg{[]string{"np", "ps"}}).WithPlainPoints(1))
 	if tier != "quick" {
 		add(2, "nsp", "epf")
 		add(1, "n", "s", "p")
 		add(2, "cpn", "fcp")
+		add(3, "gpg")
+		add(2, "gpn", "pgp")
 		out = append(out, scenario(cfg{[]string{"nf", "cs"}}).WithPlainPoints(2))
 	}
 	return out
